@@ -295,6 +295,97 @@ pub fn check_fine(v: V3, r: i32) -> (u64, Vec<Viol>) {
     (geoms.len() as u64, out)
 }
 
+
+/// (viii) order mixing across a dodecahedron edge. The containment predicate projects its point relative to
+/// the cell's face; for cells that interlock across a face edge, callers (and the lookup itself) ask about
+/// points on both sides of the edge in arbitrary order. For a cell A next to a face edge and a cell B of the
+/// neighbouring face beyond that edge: all ordered pairs (p, q) over the strict-interior points of A and of B
+/// (fractions 0.9 / 0.99 / 0.999 towards every corner and edge midpoint, and the centre), asked of A and of B
+/// on one fresh thread: `contains(X, p)` then `contains(X, q)`; the second answer must be "inside" exactly when
+/// q is one of X's own points.
+fn interior_lonlats(g: &CellGeom) -> Vec<(f64, f64)> {
+    let mut out = Vec::new();
+    for q in geo::cell_interior_points(&g.poly, &[0.9, 0.99, 0.999]) {
+        if let Ok(v) = subj::inverse(q, g.face) {
+            let (lon, lat) = rg::vec_to_ll(v);
+            // own membership must survive the lon/lat round trip with margin, otherwise no verdict on this point
+            if matches!(subj::forward(rg::ll_to_vec(lon, lat), g.face), Ok(p) if rg::signed_dist_convex(&g.poly, p) > 2e-4 * g.diam + BAND) {
+                out.push((lon, lat));
+            }
+        }
+    }
+    out
+}
+pub fn order_mixing_pair(a: &CellGeom, b: &CellGeom, r: i32) -> (u64, Vec<Viol>) {
+    let (pa, pb) = std::thread::scope(|sc| sc.spawn(|| (interior_lonlats(a), interior_lonlats(b))).join().unwrap_or_default());
+    let cells = match (subj::deserialize(a.id), subj::deserialize(b.id)) {
+        (Ok(x), Ok(y)) => [x, y],
+        _ => return (0, vec![]),
+    };
+    let ids = [a.id, b.id];
+    let pts: Vec<(f64, f64, usize)> = pa.iter().map(|&(lo, la)| (lo, la, 0usize)).chain(pb.iter().map(|&(lo, la)| (lo, la, 1usize))).collect();
+    let pts_ref = &pts;
+    let cells_ref = &cells;
+    std::thread::scope(|sc| {
+        sc.spawn(move || {
+            let ask = |x: usize, p: &(f64, f64, usize)| subj::guard(|| a5::core::cell::a5cell_contains_point(&cells_ref[x], a5::coordinate_systems::LonLat::new(p.0, p.1))).map(|d| d > 0.0);
+            let mut n = 0u64;
+            for x in 0..2 {
+                for p in pts_ref.iter() {
+                    for q in pts_ref.iter() {
+                        let _ = ask(x, p);
+                        n += 2;
+                        match ask(x, q) {
+                            Ok(inside) if inside == (q.2 == x) => {}
+                            Ok(inside) => {
+                                return (n, vec![viol(
+                                    "C03/predicate-depends-on-previous-point",
+                                    format!("resolution {}: the point ({}, {}), strictly inside {}, is reported {} {} by the library's containment predicate right after the predicate was asked about the point ({}, {}) of {}", r, q.0, q.1, subj::hex(ids[q.2]), if inside { "inside" } else { "outside" }, subj::hex(ids[x]), p.0, p.1, subj::hex(ids[p.2])),
+                                    json!({"kind": "order_mixing", "a": subj::hex(ids[0]), "b": subj::hex(ids[1])}),
+                                )]);
+                            }
+                            Err(_) => {}
+                        }
+                    }
+                }
+            }
+            (n, vec![])
+        })
+        .join()
+        .unwrap_or((0, vec![]))
+    })
+}
+/// the (A, B) pairs of one resolution: A has a corner within one cell diameter of its face's edge, B is a cell
+/// of another face that strictly contains a point 1.6 x (corner - centre) away from A's centre
+fn order_mixing_pairs<'a>(levels: &'a [Vec<CellGeom>], fr: &rg::Frame) -> Vec<(&'a CellGeom, &'a CellGeom)> {
+    let pent = geo::ref_face_pentagon();
+    let mut out: Vec<(&CellGeom, &CellGeom)> = Vec::new();
+    for g in levels.iter().flatten() {
+        if g.poly.iter().all(|p| rg::signed_dist_convex(&pent, *p) > g.diam) {
+            continue;
+        }
+        let c = rg::centroid_mean(&g.poly);
+        let mut seen: Vec<u64> = Vec::new();
+        for v in g.poly.iter() {
+            let q = [c[0] + 1.6 * (v[0] - c[0]), c[1] + 1.6 * (v[1] - c[1])];
+            if let Ok(sv) = subj::inverse(q, g.face) {
+                if let Ok((strict, _)) = containing(levels, fr, sv) {
+                    for o in strict {
+                        if seen.contains(&o) {
+                            continue;
+                        }
+                        if let Some(b) = levels.iter().flatten().find(|x| x.id == o && x.face != g.face) {
+                            seen.push(o);
+                            out.push((g, b));
+                        }
+                    }
+                }
+            }
+        }
+    }
+    out
+}
+
 pub fn run(tier: &str, verif_dir: &str) -> Report {
     let mut rep = Report::new("exploration");
     let fr = rg::frame();
@@ -304,6 +395,7 @@ pub fn run(tier: &str, verif_dir: &str) -> Report {
     let mut hard = 0u64;
     let pts: Vec<(V3, &'static str)> = super::proj::sphere_vectors(if tier == "quick" { "quick" } else { "thorough" }).into_iter().step_by(if tier == "quick" { 1 } else { 4 }).collect();
     let mut sums = Vec::new();
+    let mut mixing: Vec<Value> = Vec::new();
     for r in 0..=rmax {
         let levels = match level_geoms(r) {
             Ok(l) => l,
@@ -328,6 +420,19 @@ pub fn run(tier: &str, verif_dir: &str) -> Report {
             rep.sink.extend(vs);
             evals += pts.len() as u64;
             hard += pts.iter().filter(|p| p.1 != "uniform").count() as u64;
+        }
+        // (viii) order mixing across face edges (see `order_mixing_pair`)
+        if r >= 2 && r <= if tier == "quick" { 3 } else { 5 } {
+            let prs = std::thread::scope(|sc| sc.spawn(|| order_mixing_pairs(&levels, &fr)).join().unwrap_or_default());
+            let stepm = if r >= 5 { 3 } else { 1 };
+            let res: Vec<(u64, Vec<Viol>)> = prs.par_iter().step_by(stepm).map(|(a, b)| order_mixing_pair(a, b, r)).collect();
+            let mut calls = 0u64;
+            for (n, v) in res {
+                calls += n;
+                rep.sink.extend(v);
+            }
+            mixing.push(json!({"res": r, "cell_pairs_across_a_face_edge": prs.len() / stepm, "predicate_calls": calls}));
+            evals += calls;
         }
         // (iv) measure
         if r <= 3 {
@@ -483,6 +588,7 @@ pub fn run(tier: &str, verif_dir: &str) -> Report {
     rep.set("pairs_clipped", json!(pairs.load(Ordering::Relaxed)));
     rep.set("fine_neighbourhood_cells", json!(fine_cells.load(Ordering::Relaxed)));
     rep.set("area_sums", json!(sums));
+    rep.set("order_mixing_across_face_edges", json!(mixing));
     rep.sample(json!({"sphere_point": pts[pts.len() / 2].0, "tag": pts[pts.len() / 2].1}));
     rep.assume("no-gap verdict holds on lattice points; the measure check (iv) and C04 bound the total measure of any gap");
     rep.assume("cross-face containment uses the real forward projection (validated separately by C15)");
@@ -508,6 +614,14 @@ pub fn replay(case: &Value) -> Vec<Viol> {
             v.into_iter().filter(|x| x.class == "C03/reported-rings").collect()
         }
         "fine" => check_fine(rg::ll_to_vec(case["lon"].as_f64().unwrap(), case["lat"].as_f64().unwrap()), case["res"].as_i64().unwrap() as i32).1,
+        "order_mixing" => {
+            let a = u64::from_str_radix(case["a"].as_str().unwrap(), 16).unwrap();
+            let b = u64::from_str_radix(case["b"].as_str().unwrap(), 16).unwrap();
+            match (geom(a), geom(b)) {
+                (Ok(ga), Ok(gb)) => order_mixing_pair(&ga, &gb, rc::resolution(a).unwrap_or(0)).1,
+                _ => vec![],
+            }
+        }
         "cell_pair" => {
             let a = u64::from_str_radix(case["a"].as_str().unwrap(), 16).unwrap();
             let b = u64::from_str_radix(case["b"].as_str().unwrap(), 16).unwrap();
